@@ -364,15 +364,20 @@ class Check:
             self.cov["samples"].append({"ops": histories[k][:12], "impl": impl[k][:12], "model": model[k][:12]})
         fails = [i for i in range(len(histories)) if impl[i] != model[i] or ora[i]]
         self.cov["counters"]["failing_histories" + ("_" + label if label else "")] = len(fails)
-        reported = 0
+        examined = 0
         for i in fails:
-            if reported >= 6:
-                break
+            what0 = self._what(label, impl[i], model[i], ora[i])
+            if examined >= 12 or len(self.violations) >= 8:
+                # not shrunk: classify the unshrunk history (known finding or violation)
+                if not self._known(what0, "\n".join(histories[i])):
+                    if len(self.violations) < 12:
+                        self._record(label, histories[i], impl[i], model[i], ora[i], what0)
+                continue
             both = lambda hh: self._fails(hbin, dbin, hh, env, ubsan_is_violation, canon_impl, canon_model)
             h = self.shrink(histories[i], both)
             im, om, mo = self._eval(hbin, dbin, h, env, ubsan_is_violation, canon_impl, canon_model)
             self.report_failure(label, h, im, mo, om)
-            reported += 1
+            examined += 1
 
     def _eval(self, hbin, dbin, h, env, ubre, ci, cm):
         impl, ora, _ = self.run_impl(hbin, [h], timeout=60, env=env, ubsan_is_violation=ubre)
@@ -409,35 +414,47 @@ class Check:
         return h
 
     # ------------------------------------------------------------------ verdict
-    def report_failure(self, label, h, impl, model, oracles):
-        """One shrunk failing history: oracle messages (property observably broken on the real
-        code) and/or model/implementation disagreement."""
-        text = "\n".join(h)
-        what = "; ".join(sorted(set(oracles))) if oracles else \
-            "model and implementation disagree (%s): impl=%s model=%s" % (
-                label, first_diff(impl, model)[0], first_diff(impl, model)[1])
+    def _what(self, label, impl, model, oracles):
+        if oracles:
+            return "; ".join(sorted(set(oracles)))
+        a, b = first_diff(impl, model)
+        return "model and implementation disagree (%s): impl=%s model=%s" % (label, a, b)
+
+    def _known(self, what, text):
         for kf in self.findings:
             if kf.get("property") == self.pid and kf.get("status") == "known":
-                if re.search(kf["match"]["what"], what) and re.search(kf["match"].get("ops", ""), text, re.S):
+                if re.search(kf["match"]["what"], what, re.S) and re.search(kf["match"].get("ops", ""), text, re.S):
                     if kf["id"] not in [k["id"] for k in self.known_hits]:
                         self.known_hits.append(kf)
-                    return
+                    return True
+        return False
+
+    def _record(self, label, h, impl, model, oracles, what):
+        if sum(1 for v in self.violations if v["what"] == what) >= 3:
+            return
         n = len(self.violations)
         rp = os.path.join(VERIF, "evidence", "replays", "%s-%d-%d.ops" % (self.pid, self.seed, n))
         with open(rp, "w") as f:
             f.write("## property %s  seed %d  %s\n## %s\n" % (self.pid, self.seed, label, what.replace("\n", " ")))
             f.write("## impl:  %s\n## model: %s\n" % (" | ".join(impl)[:600], " | ".join(model)[:600]))
-            f.write(text + "\n")
+            f.write("\n".join(h) + "\n")
         self.violations.append({"what": what, "replay": rp, "found_input": bool(oracles)})
+
+    def report_failure(self, label, h, impl, model, oracles):
+        """One shrunk failing history: oracle messages (property observably broken on the real
+        code) and/or model/implementation disagreement.  A failure that matches a listed known
+        finding (both its `what` and its `ops` regex) is printed as KNOWN-FINDING instead."""
+        what = self._what(label, impl, model, oracles)
+        if self._known(what, "\n".join(h)):
+            return
+        self._record(label, h, impl, model, oracles, what)
 
     def oracle_violation(self, what, replay_text, name="oracle"):
         """A model-independent oracle failed outside the line-protocol machinery."""
-        for kf in self.findings:
-            if kf.get("property") == self.pid and kf.get("status") == "known":
-                if re.search(kf["match"]["what"], what) and re.search(kf["match"].get("ops", ""), replay_text, re.S):
-                    if kf["id"] not in [k["id"] for k in self.known_hits]:
-                        self.known_hits.append(kf)
-                    return
+        if self._known(what, replay_text):
+            return
+        if sum(1 for v in self.violations if v["what"] == what) >= 3:
+            return
         n = len(self.violations)
         rp = os.path.join(VERIF, "evidence", "replays", "%s-%d-%d.%s" % (self.pid, self.seed, n, name))
         with open(rp, "w") as f:
